@@ -56,9 +56,11 @@ type FS struct {
 	// Hook is called before every mutating call is applied, without internal locks held.
 	Hook func(fs *FS, c *Call)
 	// Fail, if set, may veto a mutating call by returning an error (fault injection).
-	Fail    func(c *Call) error
-	Log     []Call // recent calls without payloads (kept only if KeepLog)
-	KeepLog bool
+	Fail func(c *Call) error
+	// FailRead, if set, may make a non-mutating call (open of an existing file, readdir) fail.
+	FailRead func(kind, name string) error
+	Log      []Call // recent calls without payloads (kept only if KeepLog)
+	KeepLog  bool
 }
 
 // New returns an empty file system.
@@ -116,7 +118,13 @@ func (fs *FS) OpenFile(name string, flag int, perm os.FileMode) (pfs.File, error
 	name = filepath.Clean(name)
 	fs.mu.Lock()
 	ino := fs.names[name]
+	fr := fs.FailRead
 	fs.mu.Unlock()
+	if ino != nil && fr != nil {
+		if err := fr("open", name); err != nil {
+			return nil, err
+		}
+	}
 	if ino == nil {
 		if flag&os.O_CREATE == 0 {
 			return nil, &os.PathError{Op: "open", Path: name, Err: os.ErrNotExist}
@@ -195,6 +203,11 @@ func (fs *FS) Rename(oldpath, newpath string) error {
 // ReadDir implements fs.FileSystem (entries sorted by name, like os.ReadDir).
 func (fs *FS) ReadDir(dir string) ([]os.DirEntry, error) {
 	dir = filepath.Clean(dir)
+	if fr := fs.FailRead; fr != nil {
+		if err := fr("readdir", dir); err != nil {
+			return nil, err
+		}
+	}
 	fs.mu.Lock()
 	defer fs.mu.Unlock()
 	var res []os.DirEntry
